@@ -205,6 +205,22 @@ func Param(name string, def int) int {
 	return def
 }
 func Havoc(ptr interface{}, name string)     { panic("vsym.Havoc is engine-only; this harness needs a dedicated replay") }
+// Consumed (native): start a goroutine that drains the channel.
+func Consumed(ch interface{}) {
+	v := reflect.ValueOf(ch)
+	if v.Kind() != reflect.Chan {
+		return
+	}
+	go func() {
+		for {
+			if _, ok := v.Recv(); !ok {
+				return
+			}
+		}
+	}()
+}
+
+func HavocInto(ptr interface{}, name string) { panic("vsym.HavocInto is engine-only; this harness needs a dedicated replay") }
 // Snapshot (native): deterministic deep dump following pointers; unexported fields included; map keys sorted;
 // error texts, function values, mutex state and channel contents are not compared (as in the engine).
 func Snapshot(x interface{}) interface{} {
